@@ -116,7 +116,12 @@ func (c rendererContext) Get(name string) any {
 
 func (c rendererContext) ExpandTagArg() (string, error) {
 	args := c.TagArgs()
-	if strings.Contains(args, "{{") {
+	// an object is written with the engine's delimiters
+	objectLeft := "{{"
+	if d := c.ctx.config.Delims; len(d) == 4 && d[0] != "" {
+		objectLeft = d[0]
+	}
+	if strings.Contains(args, objectLeft) {
 		root, err := c.ctx.config.Compile(args, c.sourceLoc())
 		if err != nil {
 			return "", err
